@@ -31,6 +31,10 @@ EXPLANATION = (
   ' (LINT-l) no tuple / list / set display of the anchored modules lists the same computed component twice and no dict display repeats a key (a key or fingerprint built that way cannot tell apart what the missing component would have);'
   ' (STATE-share) no assignment stores a container field of one object (a field the package updates in place) into a field of another object without copying it, so an in-place update of one object never changes another;'
   " (ITEM-source) an object built once per item of an inner loop is filled only with values that derive from that item or do not vary with the loops, never with a value of the enclosing container standing where the item's own belongs;"
+  ' (REGEX-whole) every compiled pattern that an attribute parser applies with `.match` is end-anchored (or `fullmatch` is used), so a value that merely begins well-formed (`30fps`, `10frames`, `#ff0000 please`) is malformed and ignored; (LINT-m) no pattern lists literal alternatives beside an unescaped `.`;'
+  ' (LOOP-break) no loop over the items of a collection is left by a branch that does nothing but `break` on a test about the item (end-of-input sentinels, flags set in the loop body and searches whose variable is read afterwards excepted): an item that is to be skipped does not end the processing of the items after it;'
+  ' (FIN-regex) each pattern of the time-expression, length, colour and parameter parsers, applied the way its use sites apply it, accepts the well-formed values of the TTML2 syntax with the expected captures and rejects the near misses of a probe table written from the specification;'
+  " (TERM-refs) merge_chained_styles takes a style reference out of the element's list before it follows it, so a cycle of style references ends instead of recursing until RecursionError;"
 )
 RULE_TEXT = "per extraction call site x exception class, per styling step, per element class x flag, per arithmetic use of an Optional time"
 UNDECIDED = ["par/seq/dur resolution and implicit durations as values", "white-space and anonymous-span semantics", "time expression arithmetic per syntax (h/m/s/ms/f/t)"]
@@ -282,6 +286,59 @@ def check_inheritance(ctx):
               f"xml:{attr} is no longer 'the element's own value, else the parent's'")
 
 
+def check_reference_recursion(ctx):
+  """TERM-refs: style references form a graph that the document author controls (a style may reference itself, or two styles
+  each other).  merge_chained_styles recurses along references; it terminates on a cycle only because a reference is taken
+  OUT of the element's reference list before the recursion follows it, so that re-entering an element finds that reference
+  gone.  Checked: every recursive call is dominated, within the same loop iteration, by a statement that removes the followed
+  reference from the list (pop / remove / del / re-binding the list without it)."""
+  from ..cfg import CFG
+  ix = ctx.ix
+  f = ix.func("ttconv.imsc.elements:StylingElement.ParsingContext.merge_chained_styles")
+  ctx.unit(f.module)
+  rec = [c for c in own_nodes(f.node) if isinstance(c, ast.Call) and isinstance(c.func, ast.Attribute) and c.func.attr == f.name]
+  if not rec:
+    raise AnalysisError("merge_chained_styles no longer calls itself (anchor changed)")
+  cfg = CFG(f.node)
+  dom = cfg.dominators()
+  refs_attr = None
+  for lp in own_nodes(f.node):
+    if isinstance(lp, (ast.While, ast.For)):
+      for x in ast.walk(lp.test if isinstance(lp, ast.While) else lp.iter):
+        if isinstance(x, ast.Attribute) and x.attr.endswith("refs"):
+          refs_attr = unparse(x)
+  if refs_attr is None:
+    raise AnalysisError("merge_chained_styles: the loop over the style references was not found")
+  removers = []
+  for n in own_nodes(f.node):
+    if isinstance(n, ast.Call) and isinstance(n.func, ast.Attribute) and n.func.attr in ("pop", "remove", "clear") and unparse(n.func.value) == refs_attr:
+      removers.append(n)
+    elif isinstance(n, ast.Delete) and any(refs_attr in unparse(t) for t in n.targets):
+      removers.append(n)
+    elif isinstance(n, ast.Assign) and unparse(n.targets[0]) == refs_attr:
+      removers.append(n)
+  for c in rec:
+    cn = cfg.stmt_node_containing(c)
+    ok = False
+    for r_ in removers:
+      rn = cfg.stmt_node_containing(r_) if not isinstance(r_, ast.stmt) else cfg.node_of(r_)
+      loop_c = next((a for a in _ancestors_of(c) if isinstance(a, (ast.For, ast.While))), None)
+      loop_r = next((a for a in _ancestors_of(r_) if isinstance(a, (ast.For, ast.While))), None)
+      if rn is not None and cn is not None and rn in dom.get(cn, ()) and rn != cn and (loop_c is loop_r or loop_r is None):
+        ok = True
+    ctx.check(ok, "TERM-refs", f"{f.qualname}|{short(c, 60)}", ctx.where(f.module, c), f"a removal from `{refs_attr}` dominates the recursive call",
+              f"`{short(c, 60)}` follows a style reference while `{refs_attr}` still holds it: a style that references itself, or a cycle of style references, recurses until RecursionError "
+              f"(the reference must be taken out of the list before it is followed)")
+  return len(rec)
+
+
+def _ancestors_of(node):
+  cur = getattr(node, "_parent", None)
+  while cur is not None:
+    yield cur
+    cur = getattr(cur, "_parent", None)
+
+
 def check_optional_arithmetic(ctx, funcs, rule="NUL-arith"):
   """Optional[Fraction] fields of a parsing context used as operands of + - or min/max must be
   guarded by an `is not None` test (enclosing if / conditional expression / and-chain) or be one of
@@ -428,4 +485,7 @@ def run(ctx):
   nfb = fallback.check_error_fallbacks(ctx, common.funcs(ctx, ["ttconv.imsc.attributes"]), exempt={
     "ttconv.imsc.attributes:ExtentAttribute.extract": "non-integer pixel dimensions are reported and then truncated: the value is used, not ignored (lenient by design, one message)"})
   ctx.floor("EXC-fallback", "attribute extractors with an error path", nfb, 6)
+  common.check_regexes(ctx, ["ttconv.imsc.attributes", "ttconv.imsc.utils", "ttconv.imsc.elements", "ttconv.imsc.style_properties", "ttconv.utils"], whole=True, floor=10)
+  common.check_regex_probes(ctx, ["ttconv.imsc.utils", "ttconv.imsc.attributes", "ttconv.utils"], floor=16)
+  check_reference_recursion(ctx)
   common.check_history_independence(ctx, ["ttconv.imsc.reader", "ttconv.imsc.elements", "ttconv.imsc.attributes", "ttconv.imsc.utils", "ttconv.imsc.style_properties", "ttconv.imsc.namespaces", "ttconv.utils", "ttconv.model", "ttconv.style_properties"])
